@@ -213,8 +213,8 @@ def classify_and_report(ctx, jd, cases, bad, origin):
         for key in keys:
             perkey.setdefault(key, []).append(i)
     for key, idx in sorted(perkey.items()):
-        # smallest witness first
-        idx.sort(key=lambda i: len(cases[i]))
+        # smallest witness first, preferably one where RunDSL reports success
+        idx.sort(key=lambda i: ('"kind": "ok"' not in cases[i][-1] and '"kind":"ok"' not in cases[i][-1], len(cases[i])))
         for n, i in enumerate(idx):
             cfg, obs = case_of(cases[i])
             desc = ""
